@@ -69,6 +69,12 @@ func encoderWrites(f *eng.Fn) []ast.Node {
 func runC10(p *eng.Prog, r *eng.Report, tier string) {
 	c := &cx{p, r, tier}
 	closedErrorNotClassified(c, "C10.18")
+	// C10.19 (= C04.13 / C02.14): the connection adapters perform one operation of the
+	// wrapped connection per call and hand its results on: the closing tag is written once
+	c04AdaptersReportEveryFault(c, "C10.19")
+	// C10.20 (= C08.2): Serve ends without error only when the peer closed its stream: the filter
+	// yields io.EOF for the stream's own end tag and for nothing else
+	c08ReaderAs(c, "C10.20")
 	// ---- C10.1 closeSession ---------------------------------------------------
 	cs := c.fn("C10.1", "", "(*Session).closeSession")
 	if cs != nil {
